@@ -205,7 +205,8 @@ def run_diff(fe, state, pkt_name, hdrs):
 REASONS = [0, 1, 50, 100, 150, 255, 256, 65535, 65536, 2 ** 32 - 1, 2 ** 32, 2 ** 64 - 1]
 
 
-NACK_DIGEST = bytes([1, 32]) + bytes(range(100, 132))
+NACK_DATA = bytes(enc.make_data('/n/a', enc.MetaInfo(), b'after-the-nack', DigestSha256Signer()))
+NACK_DIGEST = bytes([1, 32]) + hashlib.sha256(NACK_DATA).digest()      # the Interest with a digest names exactly that packet
 
 
 def run_nack(fe, reason, target, hdrs=()):
@@ -229,7 +230,14 @@ def run_nack(fe, reason, target, hdrs=()):
     w.deliver(ts.tlv(0x64, pre + nack_hdr + post + ts.tlv(0x50, inner)))
     mid = dict(w.outcomes)
     calls_mid = list(w.calls)
+    # afterwards the Data /n/a arrives: every Interest for it that the Nack did not name is still waiting and gets it
+    w.deliver(NACK_DATA)
+    after = dict(w.outcomes)
     o = w.finish()
+    for key in ('a-exact', 'a-prefix', 'a-digest'):
+        if mid.get(key) is None and not str(after.get(key)).startswith('data:'):
+            viol.append((f'C10|nack|{fe}|bystander-lost|{key}', f'Nack reason {reason} for {target}: Interest {key} was not named by it, but the Data /n/a arriving '
+                                                                f'afterwards did not complete it (-> {after.get(key)}, final {o["outcomes"].get(key)})'))
     exp_named = {'/n/a': ('a-exact', 'a-prefix'), '/n/b': ('b',), '/h/q': (), '/n/a+digest': ('a-digest',), '/n/a/x': (), '/n': ()}[target]
     for key in ('a-exact', 'a-prefix', 'b', 'a-digest'):
         got = mid.get(key)
@@ -240,7 +248,7 @@ def run_nack(fe, reason, target, hdrs=()):
         else:
             if got is not None:
                 viol.append((f'C10|nack|{fe}|unnamed-interest-affected', f'Nack for {target}: Interest {key} -> {got}'))
-            elif o['outcomes'].get(key) != 'timeout':
+            elif key == 'b' and o['outcomes'].get(key) != 'timeout':
                 viol.append((f'C10|nack|{fe}|unnamed-interest-end|{o["outcomes"].get(key)}', f'Interest {key} ended {o["outcomes"].get(key)}'))
     if calls_mid:
         viol.append((f'C10|nack|{fe}|nack-dispatched-to-handler', f'Nack for {target} reason {reason} reached handler {calls_mid}'))
@@ -273,15 +281,15 @@ def run_frag(fe, pkt_name, variant):
 TOKENS = {'none': None, 't0': b'', 't1': b'\x01', 't8': bytes(range(8)), 't32': bytes(range(32)), 't33': bytes(range(33))}
 
 
-def run_tokens(kinds, order, debug=False):
+def run_tokens(kinds, order, debug=False, pad=None):
     if debug:
         from mc.ndnenv import debug_logging
         with debug_logging():
             return [(sg + '|debug-logging', w + ' (DEBUG logging enabled)') for sg, w in run_tokens(kinds, order)]
-    return _run_tokens(kinds, order)
+    return _run_tokens(kinds, order, pad)
 
 
-def _run_tokens(kinds, order):
+def _run_tokens(kinds, order, pad=None):
     """kinds: tuple of token kinds for Interests 0..k-1; order: sequence of Interest indices to reply to (may repeat)"""
     viol = []
     loop = VLoop()
@@ -305,7 +313,7 @@ def _run_tokens(kinds, order):
             return [('C10|token|handler-not-called', f'{kinds}: {len(kept)} of {len(kinds)} Interests reached the handler')]
         for step, i in enumerate(order):
             reply, ctx = kept[bytes(enc.Component.from_str(f'i{i}'))]
-            data = bytes(enc.make_data(f'/t/i{i}', enc.MetaInfo(), b'r%d-%d' % (i, step)))
+            data = bytes(enc.make_data(f'/t/i{i}', enc.MetaInfo(), b'r%d-%d' % (i, step) + b'p' * (pad or 0)))
             before = len(face.sent)
             reply(data)
             out = face.sent[before:]
@@ -327,6 +335,9 @@ def _run_tokens(kinds, order):
                                  f"{None if lp['pit_token'] is None else lp['pit_token'].hex()} instead of {tok.hex()}"))
                 if lp['fragment'] != data:
                     viol.append(('C10|token|fragment-modified', f'{kinds} order {order}: reply bytes changed'))
+                elif out[0] != ts.tlv(0x64, ts.tlv(0x62, tok) + ts.tlv(0x50, data)):
+                    viol.append((f'C10|token|envelope-bytes|len={len(tok)}', f'{kinds} order {order}: the envelope of a {len(data)}-byte reply is not the minimal '
+                                                                             f'LpPacket(PitToken, Fragment): {out[0][:12].hex()}.. ({len(out[0])} B)'))
         app.shutdown()
         loop.settle()
         for f in loop.task_failures():
@@ -358,6 +369,7 @@ def plan(tier, seed):
     ntok = sum(1 for _ in token_cases(tier))
     for lo in range(0, ntok, 400):
         units.append({'kind': 'token', 'lo': lo, 'hi': min(ntok, lo + 400), 'tier': tier})
+    units.append({'kind': 'tokensize'})
     return {
         'units': units,
         'rule': 'diff: pair of executions (bare, wrapped) per (front-end, table state, packet, header subset); nack: (front-end, '
@@ -418,7 +430,7 @@ def unit(arg):
                 for sig, what in v:
                     acc.violation(sig, what, {'kind': 'frag', 'fe': arg['fe'], 'pkt': pk, 'variant': variant})
         acc.sample({'frag': arg['fe'], 'variants': ['index', 'count', 'both', 'seq+both', 'seq+index']})
-    else:
+    elif k == 'token':
         for kinds, order in itertools.islice(token_cases(arg['tier']), arg['lo'], arg['hi']):
             debug = len(kinds) <= 2        # the one- and two-Interest cases also with the library's DEBUG logging turned on
             v = run_tokens(kinds, order)
@@ -436,11 +448,27 @@ def unit(arg):
             for sig, what in v:
                 acc.violation(sig, what, {'kind': 'token', 'kinds': list(kinds), 'order': order, 'debug': sig.endswith('|debug-logging')})
         acc.sample({'token_kinds': list(kinds), 'reply_order': order})
+    if k == 'tokensize':
+        # one Interest, reply sizes sweeping the Data and the envelope across the one-byte length limit (252 / 253)
+        for kd in ('t0', 't1', 't8', 't33'):
+            for pad in range(150, 260):
+                v = run_tokens((kd,), [0], pad=pad)
+                acc.evaluations += 1
+                acc.state_count += 1
+                acc.transitions += 2
+                acc.nontrivial += 1
+                acc.outcome(f"tokensize|{kd}|{'ok' if not v else 'viol'}")
+                acc.observe([kd, pad, [x[0] for x in v]])
+                for sig, what in v:
+                    acc.violation(sig, what + f' (content padded by {pad})', {'kind': 'tokensize', 'tok': kd, 'pad': pad})
+        acc.sample({'tokensize': 'token kinds t0,t1,t8,t33 x content padding 150..259'})
     return acc
 
 
 def replay(case):
     k = case['kind']
+    if k == 'tokensize':
+        return [{'sig': s, 'what': w} for s, w in run_tokens((case['tok'],), [0], pad=case['pad'])]
     if k == 'diff':
         v, _ = run_diff(case['fe'], case['state'], case['pkt'], case['hdrs'])
     elif k == 'nack':
